@@ -34,6 +34,11 @@ CLAIMS = {
             'Decides on all (constant-flag-sensitive) paths of helpers::linear_extract: Ok(()) only through the EndOfArchiveData arm and parse errors '
             'propagate; content blocks are looked up by their own id, routed to export[name] or drained, always through take(src, length of this block); '
             'names are registered only if chosen and unregistered at EndOfFile; the loop starts after a rewind. Byte equality with get_file is not decided.'),
+    'C16': (TECH_RULES + ' + filesystem-sink census', '§4 C16',
+            "Decides for all paths of mlar: a '..' component refuses the member, only Normal components are appended to output_dir, file creation is "
+            'edge-dominated by the canonical-prefix test on the parent of the filtered path, callers pass a canonicalized directory and reuse the vetted '
+            'path, and every filesystem-mutating call of the crate is classified (a sink fed by a member name outside create_file is a violation). '
+            'Symlink races and extracted content are not decided.'),
 }
 
 NOT_APPLICABLE = {
